@@ -112,6 +112,9 @@ FUNCS = {
                                         'last(ghost.trace).flags == 0 and self._in_term)', ['C14']),
             ('terminating_endpoint_closes', 'implies(old(self._in_term), closed(self) and '
                                             'ghost.trace == old(ghost.trace))', ['C14', 'C09']),
+            # C14 / C09: after starting the idle termination the idle timer runs again (armed by the SESS_TERM just sent),
+            # so that an endpoint that hears nothing further closes one idle period later
+            ('idle_timer_runs_again', 'implies(not old(self._in_term), idle_armed(self))', ['C14', 'C09']),
             ('one_shot', 'not result', []),
         ],
     ),
